@@ -195,7 +195,19 @@ func sameHandle(a, b an.FV) bool {
 	if !ok1 || !ok2 || !an.SameField(an.FieldOfAddr(fa), an.FieldOfAddr(fb)) {
 		return false
 	}
-	return (an.FV{V: fa.X, F: a.F}).Resolve(nil).V == (an.FV{V: fb.X, F: b.F}).Resolve(nil).V
+	if (an.FV{V: fa.X, F: a.F}).Resolve(nil).V == (an.FV{V: fb.X, F: b.F}).Resolve(nil).V {
+		return true
+	}
+	// the bases as addresses: a captured variable is the cell it was bound to
+	addr := func(v ssa.Value) ssa.Value {
+		if fv, ok := v.(*ssa.FreeVar); ok {
+			if b := an.FreeVarBinding(fv); b != nil {
+				return b
+			}
+		}
+		return v
+	}
+	return addr(fa.X) == addr(fb.X)
 }
 
 func c16(c *core.Ctx, r *core.Report) {
